@@ -17,6 +17,7 @@ pub proof fn vac_glist_ok<T: Ord + Clone>() requires crate::glist::glist_ok::<T>
 pub proof fn vac_glist_wf<T: Ord + Clone>(g: crate::glist::GList<T>) requires crate::glist::glist_ok::<T>(), g.wf(), g.ls().len() >= 2 ensures false {}
 pub proof fn vac_between_ok<T: Ord + Clone>() requires between_ok::<T>() ensures false {}
 pub proof fn vac_between_post<T: Ord + Clone>(l: crate::Identifier<T>, h: crate::Identifier<T>, m: T, r: crate::Identifier<T>) requires between_ok::<T>(), id_cmp(l@, h@) == core::cmp::Ordering::Less, between_post(Some(&l), Some(&h), m, r), l@.len() >= 2, h@.len() >= 2 ensures false {}
+pub proof fn vac_position_entry<A: Ord + Clone, T>(s: Seq<Id<A>>, m: SMap<Id<A>, T>, id: Id<A>, r: Option<usize>) requires list_ok::<A>(), is_order(s, m), s.len() >= 2, position_entry_post(s, id, r), r is Some ensures false {}
 pub proof fn vac_wf<T, A: Ord + Clone + Eq>(a: List<T, A>) requires a.wf(), a.sq().len() >= 2 ensures false {}
 }
 }
